@@ -526,4 +526,13 @@ def split_cases(prop, unit, label):
 
 
 if __name__ == "__main__":
-    sys.exit(main(sys.argv))
+    try:
+        code = main(sys.argv)
+    except SystemExit:
+        raise
+    except BaseException as e:      # an internal error of the machinery is never a verdict about /repo
+        import traceback
+        traceback.print_exc()
+        print("UNDECIDED: internal error of the check machinery: %r" % (e,))
+        code = 2
+    sys.exit(code)
